@@ -3,6 +3,7 @@ package main
 import (
 	"fmt"
 	"go/ast"
+	"go/token"
 	"go/types"
 	"sort"
 )
@@ -93,11 +94,40 @@ func (c *Ctx) setterMapSim(fd *ast.FuncDecl) (cm *copyMap, ret []sval, ok bool) 
 		}
 		return "<" + svString(v) + ">"
 	}
+	// valZeroTest: the condition is the plain zero test of a field of the argument
+	valZeroTest := func(cd scond) (field string, zero bool, ok bool) {
+		if cd.loop {
+			return "", false, false
+		}
+		if b, isB := cd.v.(svBin); isB && b.op == token.NEQ && isZeroSV(b.y) {
+			if q, isP := b.x.(svPath); isP && q.root == val && len(q.steps) > 0 {
+				return q.steps[len(q.steps)-1], cd.neg, true
+			}
+		}
+		if q, isP := cd.v.(svPath); isP && q.root == val && len(q.steps) > 0 {
+			return q.steps[len(q.steps)-1], cd.neg, true
+		}
+		return "", false, false
+	}
 	for pi, p := range paths {
+		// fields of the argument this path knows to be zero: storing the zero value there is copying them
+		zeroKnown := map[string]bool{}
 		for _, cd := range p.conds {
+			if f, zero, ok := valZeroTest(cd); ok {
+				if zero {
+					zeroKnown[f] = true
+				}
+				continue
+			}
 			if !cd.loop {
 				cm.other = append(cm.other, "store under the condition "+svString(cd.v))
 			}
+		}
+		srcName := func(v sval, dstField string) string {
+			if isZeroSV(v) && zeroKnown[dstField] {
+				return dstField
+			}
+			return srcName(v)
 		}
 		m := map[string]string{}
 		for _, e := range p.effs {
@@ -118,11 +148,11 @@ func (c *Ctx) setterMapSim(fd *ast.FuncDecl) (cm *copyMap, ret []sval, ok bool) 
 					leaves := map[string]sval{}
 					flattenSV(e.val, t, leaves)
 					for l, v := range leaves {
-						m[l] = srcName(v)
+						m[l] = srcName(v, l)
 					}
 					continue
 				}
-				m[e.dst.steps[len(e.dst.steps)-1]] = srcName(e.val)
+				m[e.dst.steps[len(e.dst.steps)-1]] = srcName(e.val, e.dst.steps[len(e.dst.steps)-1])
 			case "call":
 				cm.other = append(cm.other, "call "+svString(*e.call))
 			}
